@@ -398,6 +398,10 @@ func (t *Tokenizer) peek(skipComment bool) rune {
 		}
 	}
 
+	if t.last == EOF {
+		// a NUL character in the input is not the end of the input
+		t.last = utf8.RuneError
+	}
 	t.lastRaw = t.last
 	switch t.last {
 	case '•':
